@@ -267,6 +267,8 @@ class DataArray(Entity, DataSet):
                 del self._h5group["polynom_coefficients"]
         else:
             dtype = DataType.Double
+            # convert first: coefficients that are not numbers must not leave a dataset behind
+            coeff = np.array(coeff, dtype=dtype)
             self._h5group.write_data("polynom_coefficients", coeff, dtype)
         if self.file.auto_update_timestamps:
             self.force_updated_at()
